@@ -37,11 +37,13 @@ Theorem ret_value_is_result : forall k v, delivered k v = delivered_spec k v.
 Proof. exact delivered_is_spec. Qed.
 Print Assumptions ret_value_is_result.
 
-Theorem team_ret_after_members : forall tr w,
+(* one team level (members + direct subteams); a subteam reports completion from its own leader's exit, so the statement
+   for the whole tree follows by applying this theorem level by level -- that induction over trees is not formalised *)
+Theorem team_ret_after_members_partial : forall tr w,
   let s := trun (team_init w) tr in
   t_lph s = LDone -> t_live s = 0 /\ t_sublive s = 0.
 Proof. exact RetProofs.team_ret_after_members. Qed.
-Print Assumptions team_ret_after_members.
+Print Assumptions team_ret_after_members_partial.
 
 Theorem team_leader_waits : forall tr w,
   let s := trun (team_init w) tr in
